@@ -221,9 +221,11 @@ def own_single_writer(P, R, L, rule_seq="OWN-2", rule_mem="OWN-3"):
     # field written directly only inside VersionSet
     for p, bd in sorted(P.bodies.items()):
         for (bb, i, st) in field_stores(bd, "prev_sequence_number", adt="versioning::version_set::VersionSet"):
-            ok = p.startswith("versioning::version_set::VersionSet::")
+            # the setter (publication by a writer / by WAL replay) and manifest recovery; NOT the version install, which runs
+            # with the mutex released around the manifest write and would rewind the horizon to a value captured before it
+            ok = p in ("versioning::version_set::VersionSet::set_prev_sequence_number", "versioning::version_set::VersionSet::recover")
             R.check(rule_seq, "%s|writes-prev_sequence_number" % p, ok, "%s:%s" % (bd.file, st["line"]),
-                    "the field is written only by VersionSet methods", p)
+                    "the field is written only by its setter and by VersionSet::recover", p)
     # OWN-3: who inserts into a memtable
     ins = [c for c in P.callers_of(lambda c: c.declared_name == MEM_INSERT or c.name == MEM_INSERT) if not c.body.is_cleanup(c.bb)]
     R.floor(rule_mem, "MemTable::insert call sites", len(ins), 1)
@@ -2625,6 +2627,7 @@ def grd12_cursor_counts_complete_reads(P, R, L, rule="GRD-12"):
              and "read_exact" not in (c.name or "")]
     R.floor(rule, "short-read-capable read sites in read_physical_record", len(reads), 2)
     bad = []
+    fulls = {}
     for r in reads:
         n_is = lambda os_, r=r: any(o.kind == "call" and o.site is not None and o.site.bb == r.bb for o in os_)
         anything = lambda os_: True
@@ -2640,9 +2643,21 @@ def grd12_cursor_counts_complete_reads(P, R, L, rule="GRD-12"):
                 start = e[1]
         start = start if start is not None else r.target
         reach = b.reachable(start)
+        fulls[r.bb] = (full, start, reach)
         for s in stores:
             if s[0] in reach and not b.must_pass(s[0], through_edges=full, start=start):
                 bad.append("the cursor store at line %s can follow the read at line %s without passing its full-read edge" % (s[2].get("line"), r.line))
+    # a fragment is counted as a whole or not at all: a store that follows one read of the fragment (the header) lies behind the
+    # full-read edge of every later read of the same call (the payload) as well - otherwise a file torn exactly between header
+    # and payload leaves cursor == file length and the log is re-opened for appending behind an orphaned header
+    for rbb, (full, start, reach) in sorted(fulls.items()):
+        for r2bb, (full2, _, _) in sorted(fulls.items()):
+            if r2bb == rbb or r2bb not in reach:
+                continue
+            for s in stores:
+                if s[0] in reach and not b.must_pass(s[0], through_edges=full2, start=start):
+                    bad.append("the cursor store at line %s counts bytes of a fragment whose later read (line %s) may still come up short" % (
+                        s[2].get("line"), b.term(r2bb).get("line")))
     R.check(rule, READ_PHYS + "|cursor-counts-only-complete-reads", bool(stores) and not bad, where(b),
             "the consumed-bytes cursor is advanced only behind the `bytes_read >= expected` edge of every read that precedes the store "
             "(a torn tail must leave cursor < file length)", "; ".join(bad) or "%d stores, %d read sites" % (len(stores), len(reads)))
@@ -4384,6 +4399,9 @@ def bundle_retention(P, R, L):
     R.once(pair15_charge_same_version, P, R, L)
     R.once(pair12_file_level_pairs, P, R, L)
     R.once(grd30_base_level_cursor, P, R, L)
+    from . import round12
+    R.clause("EXP-1", "the level-0 input expansion compares files with the WIDENED range, restarts when a file widens the start, stores a wider end, and goes on to the next file only after both widening tests came out false")
+    R.once(round12.exp1_level0_expansion_fixpoint, P, R, L)
     from . import blind
     R.clause("SNAP-1", "every snapshot owns a list node of its own and its release removes that node unconditionally (the oldest live snapshot bounds what a compaction may drop)")
     R.once(blind.snap1_one_node_per_snapshot, P, R, L)
@@ -4455,6 +4473,10 @@ def bundle_readpath(P, R, L):
     from . import round12
     R.clause("CACHE-2", "the LRU cache behind the table cache and the block cache is asked, filled and pruned with the caller's key (an eviction unmaps the evicted key); partition ids are fresh; a block-cache miss reads and caches the requested handle")
     R.once(round12.cache2_cache_identity, P, R, L)
+    R.clause("BSRCH-2", "BlockIter::seek keeps the cursor (no store to current_index) only on the true edge of `current key == target`")
+    R.once(round12.bsrch2_block_seek_shortcut, P, R, L)
+    R.clause("OWN-16", "the client iterator becomes valid only inside its two collapse loops (which apply the sequence filter and skip tombstones / shadowed versions)")
+    R.once(round12.own16_client_iterator_validity, P, R, L)
 
 
 def bundle_recovery(P, R, L):
@@ -6084,11 +6106,20 @@ def _validity_edges(P, b):
             for t in _bt(b, c.dest["l"]):
                 tr += [(t.bb, x) for x in t.ok]
                 fl += [(t.bb, x) for x in t.err]
-    for (bb, i, st) in field_reads(b, "is_valid"):
-        if st["k"] == "assign" and not st["pl"]["p"] and "bool" == b.local_ty(st["pl"]["l"]):
-            for t in _bt(b, st["pl"]["l"]):
-                tr += [(t.bb, x) for x in t.ok]
-                fl += [(t.bb, x) for x in t.err]
+    for bb in sorted(field_reads(b, "is_valid")):
+        for st in b.blocks[bb]["stmts"]:
+            if st["k"] == "assign" and not st["pl"]["p"] and "bool" == b.local_ty(st["pl"]["l"]) and st["rv"]["k"] == "use" and \
+                    st["rv"]["ops"][0]["k"] in ("copy", "move") and \
+                    any(isinstance(e, dict) and e.get("n") == "is_valid" for e in st["rv"]["ops"][0]["pl"]["p"]):
+                for t in _bt(b, st["pl"]["l"]):
+                    tr += [(t.bb, x) for x in t.ok]
+                    fl += [(t.bb, x) for x in t.err]
+        t = b.term(bb)
+        if t["k"] == "switch" and t["discr"]["k"] in ("copy", "move") and \
+                any(isinstance(e, dict) and e.get("n") == "is_valid" for e in t["discr"]["pl"]["p"]):
+            f = switch_target(t, 0)
+            tr += [(bb, tg) for (_, tg) in b.edges(bb) if tg != f]
+            fl += [(bb, f)] if f is not None else []
     return tr, fl
 
 
@@ -6118,7 +6149,10 @@ def wrap1_delegation(P, R, L, rule="WRAP-1"):
                 pass
             tr, fl = _validity_edges(P, b)
             none_e = field_option_edges(b, child)[1]
-            exempt = none_e + (tr if meth.startswith("seek") else fl)
+            # a shortcut that trusts the current position behind a test of the wrapper's own validity is sound for the stateless
+            # wrappers; DatabaseIterator also has a DIRECTION (in backward mode the inner iterator stands before the entry shown),
+            # so its seek always repositions the inner iterator
+            exempt = none_e + ((tr if ty != "iterator::DatabaseIterator" else []) if meth.startswith("seek") else fl)
             if meth.startswith("seek"):
                 ends = _ok_blocks(b) or b.return_blocks()
             else:
